@@ -224,7 +224,7 @@ fn main() {
         }
         println!("seed={} n={} conversions={} mismatches={}", seed, n, checked, out.len());
         for o in out.iter().take(20) {
-            println!("{}", o);
+            println!("{}", o.replacen("MISMATCH ", &format!("MISMATCH seed={} n={} ", seed, n), 1));
         }
         println!("END");
     }
